@@ -2381,7 +2381,11 @@ def _one_info_ImportFrom_module(self: fst.FST, static: onestatic, idx: int | Non
 
     if not ast.level:  # cannot insert or delete
         ln, col, src = next_find_re(lines, self_ln, self_col + 4, end_ln, end_col, re_identifier_dotted, lcont=None)  # must be there, self_col+4 is for 'from'
+        src = re_identifier_dotted.match(lines[ln], col).group()  # again on the whole line because there may be whitespace around the dots
         end_col = col + len(src)
+
+        if src.replace(' ', '').replace('\t', '') != ast.module:  # spread over line continuations
+            raise NotImplementedError('ImportFrom.module not a contiguous string')
 
         return oneinfo('', None, fstloc(ln, col, ln, end_col))
 
